@@ -5,9 +5,10 @@ CONSTANTS
   Vals = {1}
   MaxDepth = 2
   NR = 1
-  NT = 1
+  NT = 2
   Writers = {1}
-  RdThreads = {1}
+  ItThreads = {1}
+  RdThreads = {2}
   MapInit = 10
   UsedInit = 7
   Chunk = 10
